@@ -224,7 +224,20 @@ def align(ref_files, cfg_files):
         for (ka, ta), (kb, tb) in zip(a, b):
             if ka == "str" and re.match(r'^"p?G_', ta):
                 binds.add(("link", ta[1:-1], tb[1:-1]))
+    for fn, k, name in export_calls(cfg_files):
+        binds.add(("export", "%s: fiExportGlobal call #%d" % (fn, k), name))
     return sorted(list(x) for x in binds), None
+
+
+def export_calls(files):
+    """[(file, ordinal, name string)] of the fiExportGlobal calls: every call exports one global of the unit into the run-time
+    table keyed by the string, so two calls with one string are two entities with one name (this does not need the
+    untruncated reference output)."""
+    out = []
+    for fn in sorted(files):
+        for k, m in enumerate(re.finditer(r'fiExportGlobal\s*\(\s*"([^"]*)"', files[fn])):
+            out.append((fn, k, m.group(1)))
+    return out
 
 
 # ---------------------------------------------------------------------------------------------------------------
